@@ -35,7 +35,7 @@ PROBES = ['pool-size-1', 'pool-size-2', 'pool-size-3', 'pool-unbounded',
           'idle-reuse', 'request-waited-for-slot', 'connect-refused',
           'dropped-mid-transaction', 'rejected-transaction',
           'server-idle-421-requeue', 'rset-after-failure', 'kind:smtp',
-          'kind:lmtp', 'kind:http', 'pool-at-bound']
+          'kind:lmtp', 'kind:http', 'pool-at-bound', 'garbage-reply']
 STATES_MEASURE = 'distinct (kind, pool size, idle timeout?, number of callers, fault kinds) tuples'
 STEP_CAP = 600000
 
@@ -51,7 +51,8 @@ def generate(seed, tier='quick'):
         callers.append({'tag': 'c%d' % j, 'at': round(t, 3),
                         'nr': rng.randint(1, 2),
                         'fate': rng.choice(['ok', 'ok', 'ok', 'ok', 'slow',
-                                            'reject', 'drop', 'rcpt-reject'])})
+                                            'reject', 'drop', 'rcpt-reject',
+                                            'garbage'])})
     scn = {'property': ID, 'harness': 'pool', 'seed': seed, 'kind': kind,
            'sched_seed': rng.getrandbits(48),
            'pool_size': rng.choice([1, 1, 2, 2, 3, None]),
@@ -87,14 +88,16 @@ def execute(scn, debug=False):
                                '550; message="5.1.1 rejected"'},
                     'rcpt-reject': {'status': 503, 'reply_header':
                                     '450; message="4.1.1 deferred"'},
-                    'drop': {'act': 'disconnect'}}[f]
+                    'drop': {'act': 'disconnect'},
+                    'garbage': {'act': 'garbage'}}[f]
             else:
                 tx[c['tag']] = {
                     'ok': {}, 'slow': {'data': [{'delay': 1.5}]},
                     'reject': {'mail': [{'code': '550'}]},
                     'rcpt-reject': {'rcpt': [{'code': '550'}] +
                                     [{}] * (c['nr'] - 1)},
-                    'drop': {'data': [{'act': 'disconnect'}]}}[f]
+                    'drop': {'data': [{'act': 'disconnect'}]},
+                    'garbage': {'data': [{'shape': 'garbage'}]}}[f]
         rs['conn_scripts'] = [conn]
         rs['tx_scripts'] = tx
         rs['http_by_tag'] = http if kind == 'http' else None
@@ -231,6 +234,16 @@ def execute(scn, debug=False):
                         'that message (accepted for this caller: %r)' % (
                             c['tag'], r, sorted(acc)), what='false-success')
                     break
+                if rep.get(r) != 'ok' and r not in acc and c['fate'] in (
+                        'ok', 'slow') and not scn['refuse'] and \
+                        not scn['idle_421']:
+                    bad('C19/no-reset', 'caller %s, for which no fault was '
+                        'scripted, was told %s failed (%s: %r) and the '
+                        'downstream never saw its message: it was handed a '
+                        'connection another caller\'s failure had left '
+                        'unusable' % (c['tag'], r, rep.get(r),
+                                      res.get('reply')), what='contaminated')
+                    break
                 if rep.get(r) != 'ok' and r in acc and c['fate'] in (
                         'ok', 'slow') and not scn['refuse'] and \
                         not scn['idle_421']:
@@ -242,6 +255,8 @@ def execute(scn, debug=False):
         fates = set(c['fate'] for c in scn['callers'])
         if 'drop' in fates:
             world.probe('dropped-mid-transaction')
+        if 'garbage' in fates:
+            world.probe('garbage-reply')
         if 'reject' in fates or 'rcpt-reject' in fates:
             world.probe('rejected-transaction')
         if scn['refuse'] and ds.listener and len(ds.listener.client_socks) < \
